@@ -173,8 +173,8 @@ def _fail(kind, step, case, msg):
 
 # ------------------------------------------------------------------------------------------------ UHeap
 
-_item = st.integers(0, 9)
-_key = st.integers(-5, 5)
+_item = st.one_of(st.integers(0, 9), st.integers(0, 40))
+_key = st.one_of(st.integers(-5, 5), st.integers(-30, 30))
 
 _uh_op = st.one_of(
     st.tuples(st.just("push"), _item, _key),
@@ -186,8 +186,10 @@ _uh_op = st.one_of(
 
 
 def _uh_strategy():
-    return st.tuples(st.booleans(), st.lists(_uh_op, min_size=1, max_size=40)).map(
-        lambda t: {"use_key": t[0], "ops": [list(x) for x in t[1]]})
+    # an optional burst of pushes first (heaps of three and more levels), then mixed operations
+    burst = st.lists(st.tuples(st.just("push"), st.integers(0, 40), st.integers(-30, 30)), min_size=0, max_size=20)
+    return st.tuples(st.booleans(), burst, st.lists(_uh_op, min_size=1, max_size=40)).map(
+        lambda t: {"use_key": t[0], "ops": [list(x) for x in t[1]] + [list(x) for x in t[2]]})
 
 
 def check_uheap(case):
